@@ -265,6 +265,12 @@ func (os *optimisticState) waitForRPCs() {
 	rpcCount := len(os.peerStates)
 	os.peerStatesLk.RUnlock()
 
+	if rpcCount == 0 {
+		// No ADD_PROVIDER RPC was issued (the lookup found no peer to store the
+		// record with), so no completion will ever be signalled on doneChan.
+		return
+	}
+
 	// returnThreshold can't be larger than the total number issued RPCs
 	if os.returnThreshold > rpcCount {
 		os.returnThreshold = rpcCount
